@@ -1100,4 +1100,216 @@ Section Bridge.
     sx2. rewrite validate_size_self, generated_validate_size_dict.
     destruct (size_check sz (lenZ kv)) as [[]|x1]; cbn [bind]; reflexivity.
   Qed.
+  (* ---------------------------------------------------------------- multi-field wrappers *)
+
+  Lemma scratch_instance_spec (rec : nat -> pyval -> res pyval) nm iattrs :
+    validating iattrs = true ->
+    Src_scratch_instance re_match rec nm (OObj KInst iattrs) = Ok (OObj KScratch scratch0, nm).
+  Proof.
+    intros Hi. unfold Src_scratch_instance. sx2. cbn [Src_scratch_instance_loop1]. sx2.
+    destruct (inst_flag_skip nm iattrs Hi) as (y & Hy & Hyt & _).
+    destruct (inst_flag_trust nm iattrs Hi) as (x & Hx & Hxt).
+    rewrite Hy. cbn [bind]. rewrite Hyt. cbn [bind]. sx2.
+    rewrite Hx. cbn [bind]. rewrite Hxt. cbn [bind]. reflexivity.
+  Qed.
+
+  Lemma handler_caught {A} (ex : exn) (a b : res A) :
+    (if exn_is_a ex TypeError then a else if exn_is_a ex ValueError then a else b) = (if caught ex then a else b).
+  Proof. destruct ex; reflexivity. Qed.
+
+  (* AllOf *)
+  Lemma allof_loop (rec : nat -> pyval -> res pyval) name n iattrs v :
+    validating iattrs = true ->
+    forall fl k_after nm,
+      match allof_combine (map (fun f => rec f v) fl) with
+      | Ok _ => exists nm',
+          Src_AllOf_set_loop1 re_match rec (multi_self name n) (OObj KInst iattrs) (OVal v) k_after (map OFld fl) nm = k_after nm'
+      | Raise x =>
+          Src_AllOf_set_loop1 re_match rec (multi_self name n) (OObj KInst iattrs) (OVal v) k_after (map OFld fl) nm = Raise x
+      end.
+  Proof.
+    intros Hi. induction fl as [|f fl IH]; intros k_after nm; cbn [map allof_combine Src_AllOf_set_loop1].
+    - exists nm. reflexivity.
+    - sx2. rewrite (scratch_instance_spec rec _ iattrs Hi). sx2.
+      cbn [co_field_set]. rewrite scratch0_validating.
+      destruct (rec f v) as [nf|ex]; cbn [bind]; [|reflexivity].
+      apply IH.
+  Qed.
+
+  Theorem generated_allof : forall fs name nm iattrs v,
+      validating iattrs = true ->
+      set_result (Src_AllOf_set re_match (rec_of fs) nm (multi_self name (length fs)) (OObj KInst iattrs) (OVal v))
+      = vset re_match e (FAllOf fs) v.
+  Proof.
+    intros fs name nm iattrs v Hi.
+    unfold Src_AllOf_set, Src_MultiFieldWrapper_get_fields. sx2. cbn [co_iter bind].
+    match goal with
+    | |- context [Src_AllOf_set_loop1 _ _ _ _ _ ?ka _ ?nm0] =>
+        pose proof (allof_loop (rec_of fs) name (length fs) iattrs v Hi (seq 0 (length fs)) ka nm0) as H
+    end.
+    pose proof (map_rec_of v fs) as Hm. unfold fids in Hm. rewrite Hm in H. clear Hm. cbn [vset].
+    destruct (allof_combine (map (fun g => vset re_match e g v) fs)) as [[]|ex]; cbn [bind].
+    - destruct H as (nm' & H). rewrite H. reflexivity.
+    - rewrite H. reflexivity.
+  Qed.
+
+  (* AnyOf *)
+  Fixpoint anyof_find (rs : list (res pyval)) : res (option pyval) :=
+    match rs with
+    | [] => Ok None
+    | Ok nf :: _ => Ok (Some nf)
+    | Raise x :: t => if caught x then anyof_find t else Raise x
+    end.
+
+  Lemma anyof_combine_find rs :
+    anyof_combine rs = match anyof_find rs with Ok (Some nf) => Ok nf | Ok None => Raise ValueError | Raise x => Raise x end.
+  Proof.
+    induction rs as [|[nf|x] t IH]; cbn [anyof_combine anyof_find]; try reflexivity.
+    destruct (caught x); [exact IH | reflexivity].
+  Qed.
+
+  Lemma anyof_loop (rec : nat -> pyval -> res pyval) name n iattrs v :
+    validating iattrs = true ->
+    forall fl k_after scr m nm,
+      match anyof_find (map (fun f => rec f v) fl) with
+      | Ok (Some nf) => exists attrs' nm', alist_get attrs' name = Some (OVal nf) /\
+          Src_AnyOf_set_loop1 re_match rec (multi_self name n) (OObj KInst iattrs) (OVal v) k_after (map OFld fl) scr m nm
+          = k_after (OObj KScratch attrs') (OVal (PBool true)) nm'
+      | Ok None => exists scr' nm',
+          Src_AnyOf_set_loop1 re_match rec (multi_self name n) (OObj KInst iattrs) (OVal v) k_after (map OFld fl) scr m nm
+          = k_after scr' m nm'
+      | Raise x =>
+          Src_AnyOf_set_loop1 re_match rec (multi_self name n) (OObj KInst iattrs) (OVal v) k_after (map OFld fl) scr m nm
+          = Raise x
+      end.
+  Proof.
+    intros Hi. induction fl as [|f fl IH]; intros k_after scr m nm; cbn [map anyof_find Src_AnyOf_set_loop1].
+    - exists scr, nm. reflexivity.
+    - sx2. rewrite (scratch_instance_spec rec _ iattrs Hi). cbn [catch fst snd]. cbv zeta.
+      cbn [co_field_set]. rewrite scratch0_validating.
+      destruct (rec f v) as [nf|ex]; cbn [bind catch].
+      + eexists. eexists. split; [|reflexivity]. rewrite nm_set_same. apply alist_get_set_same.
+      + rewrite handler_caught. destruct (caught ex); [apply IH | reflexivity].
+  Qed.
+
+  Theorem generated_anyof : forall fs name nm iattrs v,
+      validating iattrs = true ->
+      set_result (Src_AnyOf_set re_match (rec_of fs) nm (multi_self name (length fs)) (OObj KInst iattrs) (OVal v))
+      = vset re_match e (FAnyOf fs) v.
+  Proof.
+    intros fs name nm iattrs v Hi.
+    unfold Src_AnyOf_set, Src_MultiFieldWrapper_get_fields.
+    destruct (inst_flag_skip nm iattrs Hi) as (y & Hy & Hyt & _).
+    destruct (inst_flag_trust nm iattrs Hi) as (x & Hx & Hxt).
+    rewrite Hx, Hy. cbn [bind py_or]. rewrite Hxt. cbn [bind]. rewrite Hyt. cbn [bind].
+    sx2. cbn [co_iter bind].
+    match goal with
+    | |- context [Src_AnyOf_set_loop1 _ _ _ _ _ ?ka _ ?scr ?m ?nm0] =>
+        pose proof (anyof_loop (rec_of fs) name (length fs) iattrs v Hi (seq 0 (length fs)) ka scr m nm0) as H
+    end.
+    pose proof (map_rec_of v fs) as Hm. unfold fids in Hm. rewrite Hm in H. clear Hm. cbn [vset]. rewrite anyof_combine_find.
+    destruct (anyof_find (map (fun g => vset re_match e g v) fs)) as [[nf|]|ex].
+    - destruct H as (attrs' & nm' & Hget & H). rewrite H.
+      cbn [co_truthy py_truthy py_not bind negb]. sx2. cbn [co_dict_attr]. rewrite Hget. reflexivity.
+    - destruct H as (scr' & nm' & H). rewrite H. reflexivity.
+    - rewrite H. reflexivity.
+  Qed.
+  (* OneOf *)
+  Lemma oneof_loop (rec : nat -> pyval -> res pyval) name n iattrs v :
+    validating iattrs = true ->
+    forall fl k_after c nm,
+      match oneof_combine (map (fun f => rec f v) fl) with
+      | Ok cnt => exists nm',
+          Src_OneOf_set_loop1 re_match rec (multi_self name n) (OObj KInst iattrs) (OVal v) k_after (map OFld fl) (OVal (zint c)) nm
+          = k_after (OVal (zint (c + Z.of_nat cnt))) nm'
+      | Raise x =>
+          Src_OneOf_set_loop1 re_match rec (multi_self name n) (OObj KInst iattrs) (OVal v) k_after (map OFld fl) (OVal (zint c)) nm
+          = Raise x
+      end.
+  Proof.
+    intros Hi. induction fl as [|f fl IH]; intros k_after c nm; cbn [map oneof_combine Src_OneOf_set_loop1].
+    - exists nm. rewrite Z.add_0_r. reflexivity.
+    - sx2. rewrite (scratch_instance_spec rec _ iattrs Hi). cbn [catch fst snd]. cbv zeta.
+      cbn [co_field_set]. rewrite scratch0_validating.
+      destruct (rec f v) as [nf|ex]; cbn [bind catch].
+      + cbn [co_iadd_val co_add co_val bind py_add as_int zint catch].
+        match goal with |- context [Src_OneOf_set_loop1 _ _ _ _ _ _ _ _ ?nm1] => specialize (IH k_after (c + 1) nm1) end.
+        destruct (oneof_combine (map (fun f0 => rec f0 v) fl)) as [cnt|ex].
+        * destruct IH as (nm' & IH). exists nm'. unfold zint in *. rewrite IH. f_equal. f_equal. f_equal. f_equal. lia.
+        * exact IH.
+      + rewrite handler_caught. destruct (caught ex); [apply IH | reflexivity].
+  Qed.
+
+  Lemma truthy_zint z : py_truthy (zint z) = negb (z =? 0).
+  Proof.
+    unfold zint. cbn [py_truthy num_to_Q]. unfold Qeq_bool. cbn [Qnum Qden]. rewrite Z.mul_1_r, Z.mul_0_l.
+    destruct (Z.eqb_spec z 0) as [E|E].
+    - subst z. reflexivity.
+    - destruct (Zeq_bool z 0) eqn:Hz; [apply Zeq_bool_eq in Hz; contradiction | reflexivity].
+  Qed.
+
+  Theorem generated_oneof : forall fs name nm iattrs v,
+      validating iattrs = true ->
+      set_result (Src_OneOf_set re_match (rec_of fs) nm (multi_self name (length fs)) (OObj KInst iattrs) (OVal v))
+      = vset re_match e (FOneOf fs) v.
+  Proof.
+    intros fs name nm iattrs v Hi.
+    unfold Src_OneOf_set, Src_MultiFieldWrapper_get_fields.
+    destruct (inst_flag_skip nm iattrs Hi) as (y & Hy & Hyt & _).
+    rewrite Hy. cbn [bind]. rewrite Hyt. cbn [bind].
+    sx2. cbn [co_iter bind].
+    match goal with
+    | |- context [Src_OneOf_set_loop1 _ _ _ _ _ ?ka _ _ ?nm0] =>
+        pose proof (oneof_loop (rec_of fs) name (length fs) iattrs v Hi (seq 0 (length fs)) ka 0 nm0) as H
+    end.
+    pose proof (map_rec_of v fs) as Hm. unfold fids in Hm. rewrite Hm in H. clear Hm. cbn [vset].
+    destruct (oneof_combine (map (fun g => vset re_match e g v) fs)) as [cnt|ex]; cbn [bind].
+    - destruct H as (nm' & H). rewrite H. rewrite Z.add_0_l.
+      cbn [co_truthy bind py_not]. rewrite truthy_zint. sx2.
+      destruct cnt as [|[|cnt]]; try reflexivity.
+      rewrite negb_involutive.
+      assert (H0 : (Z.of_nat (S (S cnt)) =? 0) = false) by (apply Z.eqb_neq; lia).
+      assert (H1 : (1 <? Z.of_nat (S (S cnt))) = true) by (apply Z.ltb_lt; lia).
+      rewrite H0, H1. reflexivity.
+    - rewrite H. reflexivity.
+  Qed.
+
+  (* NotField *)
+  Lemma notfield_loop (rec : nat -> pyval -> res pyval) name n iattrs v :
+    validating iattrs = true ->
+    forall fl k_after nm,
+      match not_combine (map (fun f => rec f v) fl) with
+      | Ok _ => exists nm',
+          Src_NotField_set_loop1 re_match rec (multi_self name n) (OObj KInst iattrs) (OVal v) k_after (map OFld fl) nm = k_after nm'
+      | Raise x =>
+          Src_NotField_set_loop1 re_match rec (multi_self name n) (OObj KInst iattrs) (OVal v) k_after (map OFld fl) nm = Raise x
+      end.
+  Proof.
+    intros Hi. induction fl as [|f fl IH]; intros k_after nm; cbn [map not_combine Src_NotField_set_loop1].
+    - exists nm. reflexivity.
+    - sx2. rewrite (scratch_instance_spec rec _ iattrs Hi). cbn [catch fst snd]. cbv zeta.
+      cbn [co_field_set]. rewrite scratch0_validating.
+      destruct (rec f v) as [nf|ex]; cbn [bind catch]; [reflexivity|].
+      rewrite handler_caught. destruct (caught ex); [apply IH | reflexivity].
+  Qed.
+
+  Theorem generated_notfield : forall fs name nm iattrs v,
+      validating iattrs = true ->
+      set_result (Src_NotField_set re_match (rec_of fs) nm (multi_self name (length fs)) (OObj KInst iattrs) (OVal v))
+      = vset re_match e (FNot fs) v.
+  Proof.
+    intros fs name nm iattrs v Hi.
+    unfold Src_NotField_set, Src_MultiFieldWrapper_get_fields.
+    destruct (inst_flag_skip nm iattrs Hi) as (y & Hy & Hyt & _).
+    rewrite Hy. cbn [bind]. rewrite Hyt. cbn [bind].
+    sx2. cbn [co_iter bind].
+    match goal with
+    | |- context [Src_NotField_set_loop1 _ _ _ _ _ ?ka _ ?nm0] =>
+        pose proof (notfield_loop (rec_of fs) name (length fs) iattrs v Hi (seq 0 (length fs)) ka nm0) as H
+    end.
+    pose proof (map_rec_of v fs) as Hm. unfold fids in Hm. rewrite Hm in H. clear Hm. cbn [vset].
+    destruct (not_combine (map (fun g => vset re_match e g v) fs)) as [[]|ex]; cbn [bind].
+    - destruct H as (nm' & H). rewrite H. reflexivity.
+    - rewrite H. reflexivity.
+  Qed.
 End Bridge.
